@@ -80,6 +80,11 @@ def generate(rng: Prng, tier: str) -> dict:
     if tier == "thorough" and w.chance(0.01):
         n = w.randint(1000, 5000)
         shape = w.choice(["chain", "star", "random"])
+    elif (dp := rng.stream("deep")).chance(0.004):
+        # "deep chains, high-degree nodes" are in the quantifier: a few big trees in the quick tier too (a reader or
+        # writer that recurses per node, or is quadratic in the row count, shows only beyond ~1000 nodes)
+        n = dp.randint(1050, 2600)
+        shape = dp.choice(["chain", "chain", "star", "stemmed"])
     else:
         n = w.choice([1, 1, 2, 3, 4, 6, 9, 15, 25, 60])
         shape = None
@@ -307,6 +312,8 @@ def execute(program: dict) -> dict:
             bystander.comments.append("bystander note, not a comment of the written tree")
             world.log("bystander_edit")
         text_so_far = ""
+        if len(model["pid"]) >= 1000:
+            world.probe("c01.tree_of_1000_nodes_or_more")
         for gi, gen in enumerate(program["gens"]):
             wr = gen["write"]
             ab = gen.get("aborted")
